@@ -8,7 +8,7 @@ from ..harness import Violation
 from .c05 import KEYS, gen_ordered_world, gen_stat_overlay, keyval, sorted_violation
 
 PROP = "C06"
-LKEYS = ["name", "size", "ext", "hardlinks", "length(name)", "uid", "modified", "created", "path"]
+LKEYS = ["name", "size", "ext", "hardlinks", "length(name)", "uid", "modified", "created", "path", "contains('ab')"]  # the last one names no column
 
 
 def add_zips(rng, world, tops):
